@@ -49,7 +49,7 @@ def chunk_size_rule(facts, rep):
     # ChunkSize(n) >= n: the policy functions are evaluated (sv/minterp.py) for every policy state / request pair on a
     # grid that contains all break points of their constants (state and request around 1 KiB, the 64 KiB cap, powers
     # of two +-1); whatever the spelling (ternary, std::max, early returns), the chunk must cover the request
-    from ..minterp import Interp, Unsupported
+    from ..minterp import Interp, Unsupported, UndefinedBehaviour
     m = 0
     for f in facts.functions:
         if f.short == 'ChunkSize' and 'ChunkPolicy' in (f.cls_qn or ''):
@@ -62,7 +62,11 @@ def chunk_size_rule(facts, rep):
                 for st0 in pts:
                     for need in pts:
                         cnt += 1
-                        got, _, mem, _ = Interp(f, facts).run({f.params[0]['id']: need}, {k: st0 for k in fields})
+                        try:
+                            got, _, mem, _ = Interp(f, facts).run({f.params[0]['id']: need}, {k: st0 for k in fields})
+                        except UndefinedBehaviour as ex:
+                            bad = 'policy state %d, request %d: undefined behaviour: %s' % (st0, need, ex)
+                            break
                         if got is None or got < need:
                             bad = 'policy state %s=%d, request %d -> chunk of %s bytes' % ('/'.join(fields), st0, need, got)
                             break
